@@ -332,6 +332,11 @@ def discriminating_path(
                 descendant_nodes[next_node] = this_node
                 explored_nodes.add(next_node)
 
+        # stop the search once the end of a discriminating path was reached, so that
+        # 'next_node' still is that end when the path is reconstructed
+        if found_discriminating_path:
+            break
+
     # return the actual discriminating path
     if found_discriminating_path:
         disc_path = deque([])  # type: ignore
